@@ -182,4 +182,13 @@ def main(argv=None):
 
 
 if __name__ == '__main__':
-    sys.exit(main())
+    try:
+        rc = main()
+    except SystemExit:
+        raise
+    except BaseException:
+        # an internal error of the machinery is never a verdict about the code: inconclusive
+        traceback.print_exc()
+        print('INCONCLUSIVE internal error of the checker (see traceback)')
+        rc = 2
+    sys.exit(rc)
